@@ -198,12 +198,17 @@ struct ExprGen {
         return "last()";
     }
     std::string strLit() { static const std::vector<std::string> lits = { "''", "'a'", "'k1'", "'n3'", "'abc def'", "' '", "'1'", "'-12.5'", "'true'", "'&#xE9;&#x20AC;'", "'&lt;&amp;'", "&quot;it's&quot;" }; return g.pick(lits); }
-    std::string str(int d) {
+    // bmpOnly: a string that cannot hold a supplementary character (substring() counts UTF-16 units and would cut one in half: a lone
+    // surrogate in the result tree, which no serializer can write)
+    std::string str(int d, bool bmpOnly = false) {
+        if (bmpOnly && !wild) { unsigned k = (unsigned)g.below(d > 0 ? 6 : 2);
+            if (k < 2) return strLit(); if (k == 2) { static const std::vector<std::string> fs = { "name", "local-name" }; return g.pick(fs) + "(" + (g.chance(1, 3) ? std::string() : nset(d - 1)) + ")"; }
+            if (k == 3) return "format-number(" + num(d - 1) + ", '#,##0.0#')"; if (k == 4) return "string(" + num(d - 1) + ")"; return "concat(" + str(d - 1, true) + ", " + str(d - 1, true) + ")"; }
         unsigned k = (unsigned)g.below(d > 0 ? 14 : 3);
         if (k < 2) return strLit(); if (k == 2) return "string(" + path(0) + ")";
         if (k == 3) return "string(" + any(d - 1) + ")";
         if (k == 4) { int n = (int)g.range(2, 4); std::string s = "concat("; for (int i = 0; i < n; ++i) { if (i) s += ", "; s += str(d - 1); } return s + ")"; }
-        if (k == 5) return "substring(" + str(d - 1) + ", " + num(d - 1) + (g.chance(1, 2) ? ", " + num(d - 1) : std::string()) + ")";
+        if (k == 5) return "substring(" + str(d - 1, true) + ", " + num(d - 1) + (g.chance(1, 2) ? ", " + num(d - 1) : std::string()) + ")";
         if (k == 6) return std::string(g.chance(1, 2) ? "substring-before(" : "substring-after(") + str(d - 1) + ", " + str(d - 1) + ")";
         if (k == 7) return "translate(" + str(d - 1) + ", " + strLit() + ", " + strLit() + ")";
         if (k == 8) return "normalize-space(" + (g.chance(1, 4) ? std::string() : str(d - 1)) + ")";
